@@ -84,6 +84,12 @@ CLAIMED["C06"] = dict(
     note=TB_COMMON + "That SymPy itself is insensitive to symbol names and ordering, and the function-of-time <-> ODE correspondence (C05), enter through the metamorphic runs, not through theorems.",
     ref="DESIGN.md 4 C06")
 
+CLAIMED["C08"] = dict(
+    technique="Lean 4 theorems about the symbol sets of the assembled update expressions, naming and look-up bookkeeping and the parameter filter; complete oracle on every returned dictionary",
+    text="Proof: one_row_per_variable, rowSymbols_closed (every symbol of an assembled update expression is a state variable of the solver, the step symbol, an input constant or a propagator of the same row), used_propagators_defined + diag_propagator_defined (every propagator symbol used is defined, for any zero pattern sound for exp(hA)), stateName_injective (names unambiguous when no variable contains the marker), initialValue_found, listed_iff_referenced (parameter filter incl. initial values) and prefix_filter_misses_initial_values (the pre-repair defect). Search/tie: every dictionary returned for generated inputs (custom marker / step symbol, parameters none/all/partial/extra/only-in-initial-value, function-of-time entries, analytic solver disabled) is parsed and checked for completeness, closure, defined propagators, time dependence only through the step symbol, faithful initial values and listed parameter values.",
+    note=TB_COMMON + "The numeric part of the dictionary (numeric update expressions) is covered by C02; the naming hypothesis 'no two (row, col) pairs print to the same __P__ string' is stated, not proved; .n()/str printing are contracts.",
+    ref="DESIGN.md 4 C08")
+
 NOT_YET = {}
 
 def main():
